@@ -72,8 +72,10 @@ def realistic_screen_kwargs(
     observed=None,
     arity=2,
     singletons=0.0,
+    unicode_names=False,
 ):
     """Arity-2 (or 1) combination screen with unique observation tags.
+    unicode_names: every sample / treatment / plate name (not the control name) gets a non-ASCII suffix.
 
     observed: None -> all rows observed (mask all true); "none" -> no plate observed;
     "some" -> random non-empty proper subset of plates observed when possible; "random".
@@ -158,6 +160,17 @@ def realistic_screen_kwargs(
         pn = pn.astype(str)
     else:
         pn = np.array(["p%02d" % int(x) for x in rng.integers(0, npl, size=n)], dtype=str)
+    if unicode_names:
+        sfx = ["\u03b2", "\u2032", "\u2212", "\u00e9", "\u00b5M", "\u65e5\u672c", "\u00df"]
+
+        def deco(arr, keep=()):
+            m = {}
+            for x in np.unique(arr):
+                x = str(x)
+                m[x] = x if (x in keep or x == "") else x + sfx[int(rng.integers(len(sfx)))]
+            return np.array([m[str(x)] for x in arr.ravel()], dtype=str).reshape(arr.shape)
+
+        sn, pn, tn = deco(sn), deco(pn), deco(tn, keep=(control,))
     obs = unique_obs(n, rng)
     kw = dict(treatment_names=tn, treatment_doses=td, sample_names=sn, plate_names=pn, control_treatment_name=control, observations=obs)
     plates = np.unique(pn)
